@@ -5,6 +5,7 @@ package main
 // invocation run with --no-cache on a pristine machine. DESIGN.md §4.
 
 import (
+	"bytes"
 	"regexp"
 	"encoding/base64"
 	"encoding/hex"
@@ -27,7 +28,10 @@ type invocation struct {
 	Piped bool
 	// Redirect: with Piped, stdin is a descriptor on the input file (gts < file) rather than a pipe
 	Redirect bool
-	Out      string
+	// Skip: with Redirect, how many records of the file an earlier reader of
+	// the same descriptor has consumed ({ read ...; gts ...; } < file)
+	Skip int
+	Out  string
 	Fmt      string
 	// Fifo: the input path (not Piped) is a named pipe delivering the file's
 	// content (gts cmd <(cat file)); FifoSec: so are the other input files
@@ -95,10 +99,33 @@ func (iv invocation) step(r *core.RNG) *runStep {
 			rs.StdinFile = true
 			if f, ok := stockFiles[iv.Input]; ok && f.Prefix != "" {
 				rs.StdinOffset = len(f.Prefix)
+			} else if ok && iv.Skip > 0 {
+				rs.StdinOffset = recordStart(f.bytes(), iv.Skip)
 			}
 		}
 	}
 	return rs
+}
+
+// recordStart is the offset at which record number k (from 0) of a GenBank or
+// FASTA file starts; 0 when the file has no such record.
+func recordStart(data []byte, k int) int {
+	off := 0
+	for ; k > 0; k-- {
+		var i int
+		if bytes.HasPrefix(data[off:], []byte(">")) {
+			if i = bytes.Index(data[off:], []byte("\n>")); i >= 0 {
+				i++
+			}
+		} else if i = bytes.Index(data[off:], []byte("\n//\n")); i >= 0 {
+			i += 4
+		}
+		if i < 0 || off+i >= len(data) {
+			return 0
+		}
+		off += i
+	}
+	return off
 }
 
 func genChunks(r *core.RNG) []int {
@@ -328,10 +355,15 @@ func genInvocation(r *core.RNG, cmd string) invocation {
 	cmdGens[cmd](r, &iv)
 	iv.Input = primaryInputs[r.Intn(len(primaryInputs))]
 	iv.Piped = r.Chance(3, 5)
-	if iv.Piped && r.Chance(1, 10) {
+	if iv.Piped && r.Chance(1, 7) {
 		iv.Redirect = true
-		if r.Chance(1, 2) {
+		switch r.Intn(4) {
+		case 0, 1:
 			iv.Input = pickS(r, []string{"/u/pre.gb", "/u/pre.fasta"})
+		case 2:
+			// a file of several records, the first ones already consumed
+			iv.Input = pickS(r, []string{"/u/two.gb", "/u/three.gb", "/u/two.fasta", "/u/big.gb", "/u/sizes.fasta"})
+			iv.Skip = r.Intn(2)
 		}
 	}
 	if !iv.Piped && r.Chance(1, 8) {
@@ -828,6 +860,16 @@ func genOptionPair(r *core.RNG, sc *cliScenario) *cliScenario {
 func mutateInvocation(r *core.RNG, a invocation) (invocation, string) {
 	for try := 0; try < 20; try++ {
 		v := a.clone()
+		if a.Redirect && a.Skip+1 > 0 && r.Chance(1, 3) {
+			// the same command on the same descriptor, from another record on
+			if f, ok := stockFiles[a.Input]; ok && f.Prefix == "" && recordStart(f.bytes(), 1) > 0 {
+				v.Skip = 1 - a.Skip
+				if v.Skip < 0 {
+					v.Skip = 0
+				}
+				return v, "stdin-offset"
+			}
+		}
 		switch r.Intn(12) {
 		case 8: // exactly one positional argument changes
 			if pools := posPools[a.Cmd]; len(pools) > 0 && len(v.Pos) == len(pools) {
